@@ -19,7 +19,7 @@ FLOORS = {"groups": 3000, "objects_unpickled": 8000, "kind:struct": 1500, "kind:
           "structs_with_2plus_dynamic_fields": 400, "pairs_sharing_checked": 4000, "pairs_shared": 1000,
           "pairs_not_shared": 1000, "writes_on_copy": 5000, "writes_on_original": 2000,
           "allocator_walk_steps": 10000, "new_objects_in_unpickled_buffer": 2000, "reads": 100000,
-          "buffers_with_holes": 500, "kindbuf:bytearray": 500, "alias_handles_checked": 1500}
+          "buffers_with_holes": 500, "kindbuf:bytearray": 500, "alias_handles_checked": 1500, "kernel_calls_on_unpickled_objects": 60}
 RULE = ("groups of 1-4 objects (generated importable Struct / Array-subclass types with strings, nested arrays, "
         "references; generated HybridClass families) spread over 1-3 buffers of both CPU kinds with live neighbours, "
         "freed holes and growth history; pickle.loads(pickle.dumps(group, protocol 2..5)); oracle: every object "
@@ -171,6 +171,25 @@ def run_case(w, rng):
             if errs:
                 w.count("skipped_construct_mismatch")
                 return
+        # a compiled setter kernel is called on an object before pickling and on its unpickled copy afterwards
+        kern = None
+        if rng.random() < 0.04:
+            cand = [(i, it) for i, it in enumerate(items) if it.kind == "struct" and any(ft["k"] == "sc" for fn, ft in it.t["f"])]
+            if cand:
+                ki, kit = rng.choice(cand)
+                kfn, kft = rng.choice([(fn, ft) for fn, ft in kit.t["f"] if ft["k"] == "sc"])
+                try:
+                    kctx = xo.ContextCpu()
+                    kctx._compile_kernels_info = False
+                    kctx.add_kernels(kernels=kit.cls._gen_kernels(), extra_compile_args=("-O0", "-w"), extra_link_args=())
+                    v0 = kit.vg.scalar(kft["t"])
+                    kctx.kernels[f"{kit.t['n']}_set_{kfn}"](obj=kit.obj, value=v0.item())
+                    kit.mv = dict(kit.mv)
+                    kit.mv[kfn] = v0
+                    kern = (ki, kit, kfn, kft, kctx)
+                except Exception as e:
+                    viol(f"kernel-before-pickling-{type(e).__name__}", tb(e))
+                    return
         before = [bufmon.raw_bytes(e.buf) for e in envs]
         aliases = []  # (item index, name, original handle, getter)
         for i, it in enumerate(items):
@@ -264,6 +283,24 @@ def run_case(w, rng):
         # ---- 3. usable + independent: writes
         mvs_new = [it.mv for it in items]
         mvs_old = [it.mv for it in items]
+        if kern is not None:
+            ki, kit, kfn, kft, kctx = kern
+            v1 = kit.vg.scalar(kft["t"])
+            try:
+                kctx.kernels[f"{kit.t['n']}_set_{kfn}"](obj=new[ki], value=v1.item())
+            except Exception as e:
+                viol(f"kernel-on-unpickled-object-{type(e).__name__}", tb(e))
+                return
+            w.count("kernel_calls_on_unpickled_objects")
+            m2 = dict(mvs_new[ki])
+            m2[kfn] = v1
+            mvs_new[ki] = m2
+            for name, obj, m in (("copy", new[ki], mvs_new[ki]), ("original", kit.obj, mvs_old[ki])):
+                errs, _r = check_item(kit, obj, m)
+                for kk, d in errs[:1]:
+                    viol(f"kernel-on-unpickled-object:{'write-lost' if name == 'copy' else 'reached-the-original'}:{kk}", d)
+            if seen:
+                return
         for k in range(rng.randint(2, 6)):
             i = rng.randrange(len(items))
             it = items[i]
